@@ -144,16 +144,18 @@ CHECKS = {
         design='6/C11', specs=['ProcJoin.tla', 'JoinTrace.tla']),
     'C12': dict(
         level='model_checking',
-        text='ProcSort.tla puts the ideal (stable ascending sort; reverse = exact reverse) next to the implemented key design (key text + '
-             '8 hex digits of the row number, lexicographic; numbers via an order-preserving encoding of IEEE bits, modelled on a miniature '
-             'float format with denormals and two zeros). TLC decides the design exhaustively: on all 81 400 tables of <=3 keys of <=2 '
-             'characters over six character classes straddling the hex digits the design equals the ideal EXCEPT with a proper-prefix '
-             'key pair; the numeric encoding preserves order and equality EXCEPT for -0.0. Every exported text table (quick: a seeded 8%) '
-             'is sorted for real with key as format string / field list / callable, reverse, batch sizes 1/2/1000; a mismatch is accepted '
-             'only if it is exactly the listed deviation (trigger predicate + ImplSort prediction). 360/5400 seeded numeric, unicode-text and '
+        text='ProcSort.tla puts the ideal (stable ascending sort; reverse = exact reverse) next to the implemented key design (a key '
+             'string built from the rendered key and 8 hex digits of the row number, lexicographic; numbers via an order-preserving encoding '
+             'of IEEE bits, modelled on a miniature float format with denormals and two zeros). Three key-string designs are in the spec: '
+             'plain concatenation (the pinned code: refuted by TLC on proper-prefix key pairs), a bare NUL separator (refuted on keys '
+             'containing NUL) and the escaped terminator of the repaired code, for which TLC proves ImplSort = IdealSort on all 394 420 '
+             'tables of <=3 keys of <=2 characters over eight character classes straddling the hex digits and including NUL and SOH; the '
+             'numeric encoding preserves order and equality (ZeroFix; the pinned treatment of -0.0 is refuted). Every exported text table '
+             '(quick: a seeded 3%) is sorted for real with key as format string / field list / callable, reverse, batch sizes 1/2/1000 and '
+             'must come out in the ideal order. 420/6300 seeded numeric (both zeros included), unicode-text (any lengths, NUL inside) and '
              'multi-field tables (ints, floats to 1e300, Decimals, negatives) and tables of 2 500 (thorough 12 000 / 30 000, beyond the '
              '10 240-entry cache) rows are rank-abstracted with exact arithmetic and TLC checks permutation, order, stability and exact reversal.',
-        note='Three known findings (text key prefix pairs, -0.0, integers beyond 2^53) are matched by trigger + predicted deviation only. Ranks are computed with Fraction / code points (trusted).',
+        note='One known finding (integers beyond 2^53 collapse in the float64 key) is matched by trigger + predicted deviation only; the prefix-pair and -0.0 defects were repaired by fix: commits designed in the spec. Ranks are computed with Fraction / code points (trusted).',
         technique='TLA+ ideal-vs-implemented sort key design model-checked exhaustively; exported tables replayed; rank-abstracted real runs validated by a TLC trace spec',
         design='6/C12', specs=['ProcSort.tla', 'SortTrace.tla']),
     'C14': dict(
@@ -208,12 +210,12 @@ CHECKS = {
         level='model_checking',
         text='Sql.tla models the table over a history of dumps and the writer as implemented (bloom-filter seen set, insert buffer flushed '
              'before an UPDATE / beyond the batch size / at the end, UPDATE ... WHERE key); TLC checks after every dump ModeOK (rewrite: '
-             'exactly the dumped rows; append: previous ++ dumped; update: one row per key with the latest values), Downstream, '
+             'exactly the dumped rows; append: previous ++ dumped; update: one row per key with the latest values), PairingOK (the writer reports every row once, in order - what the FIFO pairing of the repaired dumper relies on), Downstream (WriterGetsCopy; the pinned in-place conversion is refuted on every run), '
              'FlagsTruthful, NeverFlagsOutsideUpdate for all histories of <=2 dumps x <=2 rows x 3 modes x bloom on/off x batch {1,1000} '
              '(255 844 states; thorough adds 1500 simulated behaviours with up to 5 dumps x 3 rows x batch {1,2,1000}). Every exported '
-             'history (quick: 3000 seeded) is replayed against a fresh on-disk SQLite file with an array and an object column, update keys '
+             'history (quick: 3000 seeded) is replayed against a fresh on-disk SQLite file with an array and an object column (30%: also a duration column, a type the database holds as text), update keys '
              'explicit or from the primary key: SELECT * after each dump, the rows delivered downstream and the updated flags must be the model\'s.',
-        note='Preconditions: non-null keys, update starts from one row per key, append without a unique constraint. Known finding: array/object cells continue downstream as JSON text on sqlite.',
+        note='Preconditions: non-null keys, update starts from one row per key, append without a unique constraint. Known finding: a duration (fallback-typed) column dumped onto an existing table raises; the former finding (array/object cells continuing as JSON text) was repaired by a fix: commit.',
         technique='TLA+ history model of the SQL writer checked with TLC (+ simulation); every exported history replayed against SQLite',
         design='6/C20', specs=['Sql.tla']),
     'C03': dict(
